@@ -5,7 +5,7 @@ model/implementation comparison, and the direct oracle: the delayed connection (
 UNDELAYED copies of the same connection class (real code) fed the per-synapse SHIFTED input history - nothing of the
 delayed code path (selector, current_at, RecordTensor.select, einsum branch) is used to compute the expectation."""
 from __future__ import annotations
-import math, os, random, json, glob
+import math, os, random, json, glob, struct
 from collections import Counter
 from fractions import Fraction
 import framework as F
@@ -146,6 +146,31 @@ def gen_delays(rng, case, nw):
     if not ks:
         return [0.0] * nw, [0] * nw
     hom = rng.randint(0, ks)
+    if rng.random() < (0.55 if tol > 0 else 0.15):
+        # deliberately NEAR the grid: k*dt +- eps with eps inside and outside the tolerance, on both sides, for k = 0 .. the
+        # maximum step count (at k = 0 / k = max this leaves the supported range by less / more than the tolerance), and the
+        # float32 rounding of the product k*dt (what a float32 delay parameter holds; it is not the binary64 product for a
+        # non-representable dt).  None of these is on the grid by construction: dk = None, the oracle classifies them.
+        ks_all = list(range(ks + 1))
+        rng.shuffle(ks_all)
+        for j in range(nw):
+            k = ks_all[j % len(ks_all)] if j < len(ks_all) else rng.randint(0, ks)
+            r = rng.random()
+            if r < 0.15:
+                d.append(k * dt); dk.append(k)
+            elif r < 0.35:
+                v32 = struct.unpack("f", struct.pack("f", k * dt))[0]
+                d.append(v32); dk.append(k if v32 == k * dt else None)
+            elif tol > 0:
+                side = rng.choice([-1.0, 1.0])
+                if r < 0.70:
+                    eps = rng.choice([0.5, 0.9, 0.25]) * tol            # inside the tolerance
+                else:
+                    eps = rng.choice([1.5, 2.5]) * tol                  # outside, still nearest to k
+                d.append(k * dt + side * eps); dk.append(None)
+            else:
+                d.append(k * dt + rng.choice([-1.0, 1.0]) * rng.choice([1e-7, 1e-4]) * dt); dk.append(None)
+        return [float(v) for v in d], dk
     for _ in range(nw):
         if style < 0.55:                      # heterogeneous, on the grid
             k = rng.randint(0, ks)
@@ -186,10 +211,11 @@ def gen_case(rng: random.Random, idx: int):
     malformed = idx % 9 == 8
     conn = rng.choice(["dense", "dense", "dense", "direct", "direct", "lateral", "lateral", "conv", "conv", "conv"])
     cls = rng.randrange(4)
-    dyadic = rng.random() < 0.6
-    dt = rng.choice([1.0, 0.5]) if dyadic else 1.3
-    ksteps = rng.choice([None, 0, 1, 1, 3, 3, 3, 2])
-    tol = rng.choice([0.0, 0.0, 0.0, 0.25 * dt]) if dyadic else rng.choice([0.0, 0.0, 0.05 * dt])
+    dyadic = rng.random() < 0.5
+    dt = rng.choice([1.0, 0.5]) if dyadic else rng.choice([1.3, 1.3, 0.9, 0.45])
+    ksteps = rng.choice([None, 0, 1, 1, 3, 3, 3, 2, 6])
+    # interp_tol goes through partialconstructor for every class: none, and three magnitudes
+    tol = rng.choice([0.0, 0.0, 1e-6, 1e-3, 0.25 * dt])
     tau = rng.choice([5.0, 2.3, 0.8, 8.0])
     tr = rng.choice([0.5, 1.7, 0.3])
     if tau <= tr:
@@ -578,6 +604,46 @@ def expect(case, bank, what, e, t, dk):
 STALE = "stale"
 
 
+def construction_failures(case, built):
+    """construction-path oracle: the synapse the connection built through `partialconstructor` must carry every argument
+    the harness configured (a dropped / defaulted argument of the inner constructor shows here, whatever the run exercises)"""
+    sy = case["syn"]
+    cls = sy["cls"]
+    dm = dims(case)
+    mode = ["interp_previous", "interp_nearest"][sy["mode"]]
+    want = {
+        "cls": CLSN[cls],
+        "tolerances": sorted({float(sy["tol"])}),
+        "cur_ob": sorted({repr(None if sy["cur_ob"] is None else float(sy["cur_ob"]))}),
+        "spk_ob": sorted({repr(None if sy["spk_ob"] is None else bool(sy["spk_ob"]))}),
+        "spike_interp": [mode],
+        "current_interp": [] if cls == 3 else ([mode] if cls in (0, 1) else ["interp_expdecay"]),
+        "current_interp_kwargs": [] if cls == 3 else ([{}] if cls in (0, 1) else [{"time_constant": float(sy["tau"])}]),
+        "spike_charge": float(sy["Q"]),
+        "time_constant": float(sy["tau"]) if cls == 2 else None,
+        "tc_decay": float(sy["tau"]) if cls == 3 else None,
+        "tc_rise": float(sy["tr"]) if cls == 3 else None,
+        "dt": float(case["dt"]), "delay": float(case["delay"] or 0.0), "B": case["B"], "shape": dm["synshape"][1:],
+        "inplace": bool(sy["inplace"]),
+    }
+    got = dict(built)
+    got["tolerances"] = sorted(set(built["tolerances"]))
+    got["cur_ob"] = sorted({repr(v) for v in built["cur_ob"]})
+    got["spk_ob"] = sorted({repr(v) for v in built["spk_ob"]})
+    got["spike_interp"] = sorted(set(built["spike_interp"]))
+    got["current_interp"] = sorted(set(built["current_interp"]))
+    ck = []
+    for kw in built["current_interp_kwargs"]:
+        if kw not in ck:
+            ck.append(kw)
+    got["current_interp_kwargs"] = ck
+    bad = {k: {"configured": want[k], "built": got.get(k)} for k in want if got.get(k) != want[k]}
+    if bad:
+        return [{"step": None, "detail": {"synapse_built_through_partialconstructor_differs": bad},
+                 "signature": {"kind": "construction", "syn": CLSN[cls], "args": sorted(bad)}}]
+    return []
+
+
 def oracle_case(case0, res):
     case = dict(case0)                  # the configuration in force (dt / maximum delay / batch size setters change it)
     fails = []
@@ -585,6 +651,7 @@ def oracle_case(case0, res):
         return [{"step": None, "detail": {"undelayed_copies_crashed": res["bank"]["crash"]}, "signature": {"kind": "oracle_crash"}}]
     dm = dims(case)
     info = res["info"]
+    fails += construction_failures(case, info["built"])
     W = info["w"]                       # as stored by the connection (LinearLateral masks the diagonal)
     bias = info["b"]
     d, dk = list(case["d"]), list(case["dk"])
